@@ -705,6 +705,37 @@ func startWatchdog() {
 			if time.Since(lastChange) > limit {
 				buf := make([]byte, 1<<22)
 				n := runtime.Stack(buf, true)
+				// a goroutine of the system under test that has been busy for the whole period
+				// without reaching a scheduling point is a hang of the system (liveness checks only)
+				if r := curRun.Load(); r != nil && r.Check != nil && r.Check.Liveness {
+					for _, g := range strings.Split(string(buf[:n]), "\n\n") {
+						head := strings.SplitN(g, "\n", 2)[0]
+						if !strings.Contains(head, "synctest bubble") || !(strings.Contains(head, "[running") || strings.Contains(head, "[runnable")) {
+							continue
+						}
+						frame := ""
+						for _, l := range strings.Split(g, "\n") {
+							if strings.HasPrefix(l, "github.com/codenotary/immudb/") && !strings.Contains(l, "/appendable") {
+								frame = l
+								if i := strings.LastIndex(frame, "("); i > 0 {
+									frame = frame[:i]
+								}
+								frame = frame[strings.LastIndex(frame, "/")+1:]
+								break
+							}
+						}
+						if frame == "" {
+							continue
+						}
+						r.mu.Lock()
+						res := &Result{Seed: r.Seed, Tape: r.tape.Recorded(), Params: r.Params, Log: r.log, Probes: r.probes, Faults: r.faults, Draws: r.tape.Draws()}
+						r.mu.Unlock()
+						res.Stuck = fmt.Sprintf("hang @%s: a goroutine of the system under test has been busy for %v without reaching a scheduling point:\n%s", frame, limit, g)
+						fmt.Fprintf(os.Stderr, "WATCHDOG: %s\n", res.Stuck)
+						StuckHandler(res)
+						os.Exit(4)
+					}
+				}
 				fmt.Fprintf(os.Stderr, "WATCHDOG: no progress for %v; stacks:\n%s\n", limit, buf[:n])
 				if f := os.Getenv("VERIF_OUT"); f != "" {
 					os.WriteFile(f+".watchdog", buf[:n], 0o644)
